@@ -805,6 +805,8 @@ def gen_arr(ctx, n=None):
 def gen_window(rng, total):
     offs = [None, None, 0, 1, 3, 7, 8, 9, 16, total, total - 1, total - 7, total - 8, total - 9, total // 2,
             rng.randint(0, total), 8 * rng.randint(0, total // 8)]
+    if total >= 8 * 4096:
+        offs += [32768, 32768 + 3, 32760, 8 * 4096 * (total // (8 * 4096)), total - 8 * 4096, 65536]            # page and allocation boundaries
     off = rng.choice([o for o in offs if o is None or 0 <= o <= total])
     rem = total - (off or 0)
     lens = [None, None, 0, 1, 7, 8, 9, rem, rem, rem - 1, rem - 7, rem - 8, rem - 9, rem // 2, rng.randint(0, rem),
@@ -819,6 +821,8 @@ def gen_read(ctx, via=None):
                              'filename', 'filename'])
     sizes = SRC_SIZES if ctx.quick else SRC_SIZES + [2500, 8750]
     size = rng.choice(sizes)
+    if rng.random() < 0.02:
+        size = rng.choice([4096, 4097, 4100, 8192, 8193, 65536, 65537, 65536 + 4096])      # sources longer than a page / 64 KiB
     if size == 0 and via in ('handle', 'filename'):
         size = 1                       # the empty file is a directed case (own mechanism), not random noise
     r = rng.random()
